@@ -89,20 +89,35 @@ def prod(a, axis=None, dtype=None, keepdims=False, split_every=None, out=None):
     )
 
 
+def _no_candidates(x, axis):
+    """What a block that is empty along a reduced axis contributes to a
+    min/max: nothing -- length 0 along that axis (1, as with keepdims, along
+    the other reduced axes), so that concatenating the partial results along
+    the reduced axes skips it -- with the kept axes unchanged.
+    None if no reduced axis is empty (NumPy then reduces the block itself)."""
+    if axis is None:
+        axes = tuple(range(x.ndim))
+    elif isinstance(axis, Integral):
+        axes = (axis % x.ndim,)
+    else:
+        axes = tuple(a % x.ndim for a in axis)
+    if not builtins.any(x.shape[a] == 0 for a in axes):
+        return None
+    return np.empty_like(x, shape=tuple((0 if n == 0 else 1) if i in axes else n for i, n in enumerate(x.shape)))
+
+
 def chunk_min(x, axis=None, keepdims=None):
     """Version of np.min which ignores size 0 arrays"""
-    if x.size == 0:
-        return array_safe([], x, ndmin=x.ndim, dtype=x.dtype)
-    else:
-        return np.min(x, axis=axis, keepdims=keepdims)
+    if x.size == 0 and x.ndim and (empty := _no_candidates(x, axis)) is not None:
+        return empty
+    return np.min(x, axis=axis, keepdims=keepdims)
 
 
 def chunk_max(x, axis=None, keepdims=None):
     """Version of np.max which ignores size 0 arrays"""
-    if x.size == 0:
-        return array_safe([], x, ndmin=x.ndim, dtype=x.dtype)
-    else:
-        return np.max(x, axis=axis, keepdims=keepdims)
+    if x.size == 0 and x.ndim and (empty := _no_candidates(x, axis)) is not None:
+        return empty
+    return np.max(x, axis=axis, keepdims=keepdims)
 
 
 @derived_from(np)
@@ -207,21 +222,19 @@ def nanprod(a, axis=None, dtype=None, keepdims=False, split_every=None, out=None
 
 
 def _nanmin_skip(x_chunk, axis, keepdims):
-    if x_chunk.size > 0:
-        with warnings.catch_warnings():
-            warnings.filterwarnings("ignore", "All-NaN slice encountered", RuntimeWarning)
-            return np.nanmin(x_chunk, axis=axis, keepdims=keepdims)
-    else:
-        return asarray_safe(np.array([], dtype=x_chunk.dtype), like=meta_from_array(x_chunk))
+    if x_chunk.size == 0 and x_chunk.ndim and (empty := _no_candidates(x_chunk, axis)) is not None:
+        return empty
+    with warnings.catch_warnings():
+        warnings.filterwarnings("ignore", "All-NaN slice encountered", RuntimeWarning)
+        return np.nanmin(x_chunk, axis=axis, keepdims=keepdims)
 
 
 def _nanmax_skip(x_chunk, axis, keepdims):
-    if x_chunk.size > 0:
-        with warnings.catch_warnings():
-            warnings.filterwarnings("ignore", "All-NaN slice encountered", RuntimeWarning)
-            return np.nanmax(x_chunk, axis=axis, keepdims=keepdims)
-    else:
-        return asarray_safe(np.array([], dtype=x_chunk.dtype), like=meta_from_array(x_chunk))
+    if x_chunk.size == 0 and x_chunk.ndim and (empty := _no_candidates(x_chunk, axis)) is not None:
+        return empty
+    with warnings.catch_warnings():
+        warnings.filterwarnings("ignore", "All-NaN slice encountered", RuntimeWarning)
+        return np.nanmax(x_chunk, axis=axis, keepdims=keepdims)
 
 
 @derived_from(np)
@@ -712,9 +725,13 @@ def _arg_combine(data, axis, argfunc, keepdims=False):
 
 def arg_chunk(func, argfunc, x, axis, offset_info):
     arg_axis = None if len(axis) == x.ndim or x.ndim == 1 else axis[0]
-    vals = func(x, axis=arg_axis, keepdims=True)
-    arg = argfunc(x, axis=arg_axis, keepdims=True)
-    if x.ndim > 0:
+    if x.size == 0 and x.ndim and (vals := _no_candidates(x, arg_axis)) is not None:
+        # a block that is empty along the reduced axis holds no candidate
+        arg = np.empty_like(vals, dtype=np.intp)
+    else:
+        vals = func(x, axis=arg_axis, keepdims=True)
+        arg = argfunc(x, axis=arg_axis, keepdims=True)
+    if x.ndim > 0 and arg.size:
         if arg_axis is None:
             offset, total_shape = offset_info
             ind = np.unravel_index(arg.ravel()[0], x.shape)
@@ -742,7 +759,13 @@ def arg_chunk(func, argfunc, x, axis, offset_info):
 
 
 def arg_combine(argfunc, data, axis=None, **kwargs):
-    arg, vals = _arg_combine(data, axis, argfunc, keepdims=True)
+    vals = data["vals"]
+    arg_axis = None if len(axis) == vals.ndim or vals.ndim == 1 else axis[0]
+    if vals.size == 0 and vals.ndim and (empty := _no_candidates(vals, arg_axis)) is not None:
+        # a group made of empty blocks only still holds no candidate
+        arg, vals = np.empty_like(empty, dtype=data["arg"].dtype), empty
+    else:
+        arg, vals = _arg_combine(data, axis, argfunc, keepdims=True)
 
     try:
         result = np.empty_like(vals, shape=vals.shape, dtype=[("vals", vals.dtype), ("arg", arg.dtype)])
